@@ -21,9 +21,10 @@ Qed.
 
 Section MinimizeSem.
   Variable g : mg nat.
+  Context {D : Type} {eqD : EqB D}.
   Variable U : Type.
-  Variable f : nat -> (nat -> bool) -> U -> bool.
-  Variable rho : nat -> bool.
+  Variable f : nat -> (nat -> D) -> U -> D.
+  Variable rho : nat * bool -> D.
   Hypothesis f_local : local g U f.
   Variable order : list nat.
   Hypothesis order_ok : is_topo g order = true.
